@@ -349,9 +349,10 @@ Fixpoint dechunk (o : ref_opts) (fuel : nat) (s : bytes) : pres (bytes * list fi
                   end
               end
           | Some n =>
-              let k := N.to_nat n in
-              if Nat.ltb (length rest) (k + 2) then PErr Incomplete
+              (* compared in N: the size is attacker-chosen and must not be converted to nat before the check *)
+              if (N.of_nat (length rest) <? n + 2)%N then PErr Incomplete
               else
+                let k := N.to_nat n in
                 let data := firstn k rest in
                 match skipn k rest with
                 | c1 :: c2 :: rest' =>
@@ -417,8 +418,8 @@ Definition parse_response_head (o : ref_opts) (s : bytes) : pres (bytes * N * by
 Definition read_body (o : ref_opts) (bl : body_len) (s : bytes) : pres (bytes * list field * bytes) :=
   match bl with
   | BLZero | BLTunnel => POk ([], [], s)
-  | BLLen n => let k := N.to_nat n in
-               if Nat.ltb (length s) k then PErr Incomplete else POk (firstn k s, [], skipn k s)
+  | BLLen n => if (N.of_nat (length s) <? n)%N then PErr Incomplete
+               else let k := N.to_nat n in POk (firstn k s, [], skipn k s)
   | BLChunked => dechunk o (S (length s)) s
   | BLUntilClose => POk (s, [], [])
   end.
